@@ -152,5 +152,8 @@ pub(crate) trait CMsgHdr {
     fn len(&self) -> usize;
 }
 
+// Large enough for everything a single receive may carry on Linux with the socket options we
+// enable: SCM_TIMESTAMPNS (32) + UDP_GRO (24) + IPV6_PKTINFO (40) + IPV6_TCLASS (24) = 120 bytes.
+// A smaller buffer makes the kernel truncate the control data, silently dropping the last message.
 #[cfg(unix)]
-pub(crate) const LEN: usize = 96;
+pub(crate) const LEN: usize = 128;
